@@ -5,7 +5,7 @@ sys.path.insert(0, os.path.dirname(os.path.dirname(os.path.abspath(__file__))))
 import coqreplay as _coqreplay
 
 PROP = {
-    "coq": ["C01", "C01r", "Findings", "C01s"],
+    "coq": ["C01", "C01r", "Findings", "C01s", "C02t"],
     "pre": [regen_src],
     "extra": [_coqreplay.replay_cc],
     "exhaustive": False,
@@ -16,7 +16,7 @@ PROP = {
     "assumptions": ["the bulk of the cases run on the scripted connection (tcp and rtuovertcp framing); all six transports are exercised through the real Open() on loopback sockets / a pty with a smaller number of calls (scenario txreal)"],
 }
 CLAIM = {
-  "text": "Source level (C01s): the frame assembly functions assembleRTUFrame / assembleMBAPFrame and registerCount are translated from the Go source on every run (harness/cmd/gosrc -> Gen/SrcPure.v) and proved equal to the model's frames for every transaction id, unit id, function code and payload. Coq theorems over the client model: for EVERY public read/write call, address, quantity, slice length (incl. >= 65536 and register totals overflowing 16 bits), value, unit id, byte/word order and both framings, the request PDU equals the Modbus encoding exactly when the arguments are within protocol limits (c01_request_exact) and then exactly one frame (MBAP header / RTU CRC = bit-serial reference) is written, otherwise nothing is written and the unexpected-parameters error is returned (c01_transmit). The model is compared with the real client's Write calls on every run.",
+  "text": "Source level (C02t): the request construction and reply validation methods of client.go are translated from the Go source on every run and proved, with the transport as an arbitrary oracle, to return what the model's client_request / unit_check / client_validate say (38 theorems; on the model's own MBAP and RTU transports this is client_call). Source level (C01s): the frame assembly functions assembleRTUFrame / assembleMBAPFrame and registerCount are translated from the Go source on every run (harness/cmd/gosrc -> Gen/SrcPure.v) and proved equal to the model's frames for every transaction id, unit id, function code and payload. Coq theorems over the client model: for EVERY public read/write call, address, quantity, slice length (incl. >= 65536 and register totals overflowing 16 bits), value, unit id, byte/word order and both framings, the request PDU equals the Modbus encoding exactly when the arguments are within protocol limits (c01_request_exact) and then exactly one frame (MBAP header / RTU CRC = bit-serial reference) is written, otherwise nothing is written and the unexpected-parameters error is returned (c01_transmit). The model is compared with the real client's Write calls on every run.",
   "note": "Model follows the tree with fix commits F2/F3 applied (the pinned tree violated the property: see known_findings.json). Trusted: kernel, extraction, harness, scripted connection; tcp+tls/udp/serial share the request path (socket wiring: C16).",
   "technique": "Coq proof over Go source functions translated on every run (GoLite deep embedding) + Coq proof (model = unbounded-arithmetic spec, case analysis + lia) + differential correspondence on write logs",
 }
